@@ -7,7 +7,7 @@
     [binary_search_by] (Model/RustStd.v), inserted at the position the search returned — instead of
     the association list [e_vars].  Proofs/VaryProofs.v shows that the two layers coincide.
     Definitions only. *)
-From KV Require Export Bytes RustInt Range CacheControl Cache Fixture RuleSet RustStd.
+From KV Require Export Bytes RustInt Range CacheControl Cache Fixture CacheX RuleSet RustStd.
 Open Scope N_scope.
 
 (** ---- [HeaderMap::get(&str)] (http 1.5.0, header/name.rs [HEADER_CHARS], [parse_hdr]) ----
@@ -289,9 +289,16 @@ Section LayerV.
     | None => new_and_cache c2 hs' now r f lg (fun _ => ims_on) true
     end.
 
-  (** [handle_vary_missing] after the repair: the position is searched for again in the entry that the
-      second lookup returned; if that entry meanwhile holds the variant, the cache is left alone and the
-      response just computed is served with the header list of the first search. *)
+  (** [handle_vary_missing] as it is now (repairs aa05eaf, 8fe98d4, 92a9cd2): the position is searched for again in
+      the entry that the second lookup returned; if that entry meanwhile holds the variant, the cache is left
+      alone and the response just computed is served with the header list of the first search.  Otherwise the new
+      variant enters the cache on the same terms as a new item: [get_cache] (host has a cache, the handler's
+      preference, the method, the status filter; streams are not modelled), a query-dependent response only joins
+      an entry keyed with the query, [server_cache_lifetime] ([kvarn-cache-control: none] = not stored; else the
+      entry's remaining lifetime is capped by the variant's own: Model/CacheX.v [min_life]) and the size limit of
+      [MokaCache::insert] (checked after [push_response] on the clone).  A variant that is not admitted is served
+      and the entry left as it is. *)
+  Definition key_has_query (k : key) : bool := match k with KPathQuery _ _ => true | KPath _ => false end.
   Definition vary_missing (c1 : vcache) (hs : hstate) (now : N) (r : request) (ok : bool)
              (k : key) (position : nat) (headers : hcoll) : outcome vresult :=
     let '(f, hs', lg) := compute hs r ok in
@@ -301,13 +308,19 @@ Section LayerV.
         match vr_get_by_request (ve_var e') r with
         | Ok (Hit _) => Ok ((c2, hs'), finishV r f headers ims_on true, lg, [r])
         | Ok (Miss position' headers') =>
-            match vr_push dbg (ve_var e') f position' headers' with
-            | Ok (vr', (f1, vary1)) =>
-                let e'' := mkVE vr' now (option_map (fun l => l - (now - ve_created e')) (ve_life e')) in
-                Ok ((pc_insert k' e'' c2, hs'), finishV r f1 vary1 ims_on true, lg, [r])
-            | Err e => Err e
-            | Panic => Panic
-            end
+            let accepted := wants_cache cache_on (rq_method r) f
+                            && (negb (f_spref f =? SP_QUERY) || key_has_query k') in
+            if accepted && negb (kvarn_none f) then
+              match vr_push dbg (ve_var e') f position' headers' with
+              | Ok (vr', (f1, vary1)) =>
+                  let remaining := option_map (fun l => l - (now - ve_created e')) (ve_life e') in
+                  let e'' := mkVE vr' now (min_life remaining (lifetime_ms f)) in
+                  Ok (((if N.of_nat (length (f_body f)) <? size_limit then pc_insert k' e'' c2 else c2), hs'),
+                      finishV r f1 vary1 ims_on true, lg, [r])
+              | Err e => Err e
+              | Panic => Panic
+              end
+            else Ok ((c2, hs'), finishV r f headers' ims_on true, lg, [r])
         | Err e => Err e
         | Panic => Panic
         end
@@ -323,7 +336,10 @@ Section LayerV.
   | PkMiss (r : request) (ok : bool)
   | PkVary (r : request) (ok : bool) (k : key) (position : nat) (headers : hcoll).
 
-  Definition serveV_phase1 (st : vstate) (now : N) (r0 : request) : outcome (vresult + vcache * parked) :=
+  (** [fix_ims = true]: the code as it is (repair 832d735): [client_request_is_fresh] also needs
+      [resp.get_by_request(request).is_ok()] — only a variant that is in the cache can be vouched for;
+      [false]: before the repair the 304 was decided on the entry's date alone, before the variants were looked at *)
+  Definition serveV_phase1_gen (fix_ims : bool) (st : vstate) (now : N) (r0 : request) : outcome (vresult + vcache * parked) :=
     let '(c, hs) := st in
     let ok := sanitize_ok r0 in
     let r := prime r0 in
@@ -336,12 +352,14 @@ Section LayerV.
           let ims := if ims_on then match header (B "if-modified-since") r with
                                     | Some v => parse_ims v | None => None end
                      else None in
-          if match ims with Some t => ims_fresh t (ve_created e) | None => false end then
+          let got := vr_get_by_request (ve_var e) r in
+          if match ims with Some t => ims_fresh t (ve_created e) | None => false end
+             && (negb fix_ims || match got with Ok (Hit _) => true | _ => false end) then
             Ok (inl ((c1, hs),
                      {| rp_status := 304; rp_headers := []; rp_body := []; rp_identity := [];
                         rp_last_modified := ims_on; rp_from_cache := true |}, [], []))
           else
-            match vr_get_by_request (ve_var e) r with
+            match got with
             | Ok (Hit (f, vary)) => Ok (inl ((c1, hs), finishV r f vary ims_on true, [], []))
             | Ok (Miss position headers) => Ok (inr (c1, PkVary r ok k position headers))
             | Err e0 => Err e0
@@ -350,6 +368,9 @@ Section LayerV.
         else Ok (inr (c1, PkMiss r ok))
     | None => Ok (inr (c1, PkMiss r ok))
     end.
+
+  Definition serveV_phase1 := serveV_phase1_gen true.
+  Definition serveV_phase1_v0 := serveV_phase1_gen false.
 
   Definition serveV_phase2 (c : vcache) (hs : hstate) (now : N) (p : parked) : outcome vresult :=
     match p with
@@ -371,7 +392,21 @@ Section LayerV.
     | Panic => Panic
     end.
 
-  Definition vclear_page (r : request) (c : vcache) : vcache := pc_remove (key_p r) (pc_remove (key_pq r) c).
+  (** [Collection::clear_page]: the two keys of the URI as given and those of its default-redirect target
+      (Model/Cache.v [clear_page]) *)
+  Definition vclear_uri (r : request) (c : vcache) : vcache := pc_remove (key_p r) (pc_remove (key_pq r) c).
+  Definition vhas_uri (r : request) (c : vcache) : bool :=
+    match pc_find (key_pq r) c, pc_find (key_p r) c with None, None => false | _, _ => true end.
+  Definition vclear_page (r : request) (c : vcache) : vcache :=
+    match redirect_target r with
+    | Some r' => vclear_uri r' (vclear_uri r c)
+    | None => vclear_uri r c
+    end.
+  Definition vpage_cleared (r : request) (c : vcache) : bool :=
+    vhas_uri r c || match redirect_target r with
+                    | Some r' => vhas_uri r' (vclear_uri r c)
+                    | None => false
+                    end.
 
   Definition stepV (st : vstate) (now : N) (o : op) : outcome (vstate * N * obs * list request) :=
     match o with
@@ -383,8 +418,7 @@ Section LayerV.
         end
     | OClearPage r =>
         let '(c, hs) := st in
-        let had := match pc_find (key_pq r) c, pc_find (key_p r) c with None, None => false | _, _ => true end in
-        Ok ((vclear_page r c, hs), now, ObCleared true (cache_on && had), [])
+        Ok ((vclear_page r c, hs), now, ObCleared true (cache_on && vpage_cleared r c), [])
     | OClearAll => let '(c, hs) := st in Ok (([], hs), now, ObNone, [])
     | OWait ms => Ok (st, now + ms, ObNone, [])
     end.
@@ -449,7 +483,14 @@ Section LayerV.
   Definition spec_step (s : seen_t) (hs : hstate) (o : op) : seen_t * hstate * obs * list request :=
     match o with
     | OReq r => let '(s', hs', rp, lg, calls) := spec_serve s hs r in (s', hs', ObReply rp lg, calls)
-    | OClearPage r => (seen_clear (rq_path r) s, hs, ObCleared true (cache_on && seen_has_page (rq_path r) s), [])
+    | OClearPage r =>
+        (* the page as given and the page its default-redirect target names *)
+        match redirect_target r with
+        | Some r' =>
+            (seen_clear (rq_path r') (seen_clear (rq_path r) s), hs,
+             ObCleared true (cache_on && (seen_has_page (rq_path r) s || seen_has_page (rq_path r') (seen_clear (rq_path r) s))), [])
+        | None => (seen_clear (rq_path r) s, hs, ObCleared true (cache_on && seen_has_page (rq_path r) s), [])
+        end
     | OClearAll => ([], hs, ObNone, [])
     | OWait _ => (s, hs, ObNone, [])
     end.
@@ -472,10 +513,26 @@ Definition rules_fix (vr : list (bytes * list vrule)) (p : bytes) : list rule :=
 (** handler kind 5 (harness/src/c05.rs only): "<body>?<query>" followed by the transformed tuple, i.e. kind 3
     with the query made part of the prefix — for pages whose cache key includes the query *)
 Definition q_part (r : request) : bytes := match rq_query r with Some (c :: q) => 63 :: c :: q | _ => [] end.
+(** handler kind 6 (harness/src/c05.rs only): kind 3 whose variants differ in cacheability — the handler declares
+    [ServerCachePreference::None] when the first component it renders is empty or starts with 'n', 'z' or '0' — so
+    that a page has variants that [handle_vary_missing] must not admit to the cache *)
+Definition picky_refused (v : bytes) : bool :=
+  match v with [] => true | c :: _ => (c =? 110) || (c =? 122) || (c =? 48) end.
+Definition first_component (h : hspec) (r : request) : option bytes :=
+  match h_tuple h with
+  | (n, xf, d) :: _ => Some (match header_text n r with Some v => xform xf v | None => d end)
+  | [] => None
+  end.
 Definition handlers_c05 (handlers : list hspec) (r : request) : list hspec :=
   map (fun h => if h_kind h =? 5
                 then mkH (h_path h) 3 (h_status h) (h_body h ++ q_part r) (h_headers h) (h_spref h) (h_cpref h)
                          (h_compress h) (h_tuple h)
+                else if h_kind h =? 6
+                then mkH (h_path h) 3 (h_status h) (h_body h) (h_headers h)
+                         (match first_component h r with
+                          | Some v => if picky_refused v then SP_NONE else h_spref h
+                          | None => h_spref h
+                          end) (h_cpref h) (h_compress h) (h_tuple h)
                 else h) handlers.
 Definition compute_c05 (handlers : list hspec) (hs : list N) (r : request) (ok : bool) : fat * list N * list bytes :=
   compute_fix (handlers_c05 handlers r) hs r ok.
@@ -511,9 +568,9 @@ Definition stepV_fix (cfg : config) :=
   stepV (list N) (compute_c05 (cf_handlers cfg)) (cf_cache cfg) (cf_ims cfg) parse_ims_fix sanitize_ok_fix
         (prime_fix cfg) (fun _ _ => None) (rules_fix (cf_vary cfg)) true.
 
-Definition phase1_fix (cfg : config) :=
-  serveV_phase1 (list N) (cf_cache cfg) (cf_ims cfg) parse_ims_fix sanitize_ok_fix
-        (prime_fix cfg) (fun _ _ => None).
+Definition phase1_fix (ims0 : bool) (cfg : config) :=
+  serveV_phase1_gen (list N) (cf_cache cfg) (cf_ims cfg) parse_ims_fix sanitize_ok_fix
+        (prime_fix cfg) (fun _ _ => None) (negb ims0).
 Definition phase2_fix (v0 : bool) (cfg : config) :=
   (if v0 then serveV_phase2_v0 else serveV_phase2) (list N) (compute_c05 (cf_handlers cfg)) (cf_cache cfg) (cf_ims cfg)
         (fun _ _ => None) (rules_fix (cf_vary cfg)) true.
@@ -521,37 +578,54 @@ Definition phase2_fix (v0 : bool) (cfg : config) :=
 Definition x_reply (cfg : config) (res : vcache * list N * reply * list bytes * list request) : xval :=
   let '(_, rp, lg, _) := res in x_obs (cf_report cfg) (ObReply rp lg).
 
-(** [pk]: the suspended request, if any (a second [FPark] while one is suspended is not run: (L (N 96))) *)
-Fixpoint run_fix_ops (v0 : bool) (cfg : config) (st : vcache * list N) (now : N) (pk : option (parked))
+(** [pk]: the suspended request, if any (a second [FPark] while one is suspended is not run: (L (N 96)));
+    [v0]: [handle_vary_missing] as it was before the repair aa05eaf; [ims0]: the If-Modified-Since test as it was
+    before the repair 832d735 (a request is then run as its two phases, one after the other) *)
+Fixpoint run_fix_ops (v0 ims0 : bool) (cfg : config) (st : vcache * list N) (now : N) (pk : option (parked))
          (ops : list fop) : outcome (list xval) :=
   let cons (x : xval) (o : outcome (list xval)) : outcome (list xval) :=
     match o with Ok l => Ok (x :: l) | o' => o' end in
   match ops with
   | [] => Ok []
-  | FDump r :: rest => cons (x_dump (fst st) r) (run_fix_ops v0 cfg st now pk rest)
+  | FDump r :: rest => cons (x_dump (fst st) r) (run_fix_ops v0 ims0 cfg st now pk rest)
   | FOp o :: rest =>
-      match stepV_fix cfg st now o with
-      | Ok (st', now', ob, _) => cons (x_obs (cf_report cfg) ob) (run_fix_ops v0 cfg st' now' pk rest)
-      | Err e => Err e
-      | Panic => Panic
+      match (if ims0 then match o with OReq r => Some r | _ => None end else None) with
+      | Some r =>
+          match phase1_fix ims0 cfg st now r with
+          | Ok (inl res) => cons (x_reply cfg res) (run_fix_ops v0 ims0 cfg (fst (fst (fst res))) now pk rest)
+          | Ok (inr (c1, p)) =>
+              match phase2_fix v0 cfg c1 (snd st) now p with
+              | Ok res => cons (x_reply cfg res) (run_fix_ops v0 ims0 cfg (fst (fst (fst res))) now pk rest)
+              | Err e => Err e
+              | Panic => Panic
+              end
+          | Err e => Err e
+          | Panic => Panic
+          end
+      | None =>
+          match stepV_fix cfg st now o with
+          | Ok (st', now', ob, _) => cons (x_obs (cf_report cfg) ob) (run_fix_ops v0 ims0 cfg st' now' pk rest)
+          | Err e => Err e
+          | Panic => Panic
+          end
       end
   | FPark r :: rest =>
       match pk with
-      | Some _ => cons (XL [XN 96]) (run_fix_ops v0 cfg st now pk rest)
+      | Some _ => cons (XL [XN 96]) (run_fix_ops v0 ims0 cfg st now pk rest)
       | None =>
-          match phase1_fix cfg st now r with
-          | Ok (inl res) => cons (x_reply cfg res) (run_fix_ops v0 cfg (fst (fst (fst res))) now None rest)
-          | Ok (inr (c1, p)) => cons (XL []) (run_fix_ops v0 cfg (c1, snd st) now (Some p) rest)
+          match phase1_fix ims0 cfg st now r with
+          | Ok (inl res) => cons (x_reply cfg res) (run_fix_ops v0 ims0 cfg (fst (fst (fst res))) now None rest)
+          | Ok (inr (c1, p)) => cons (XL []) (run_fix_ops v0 ims0 cfg (c1, snd st) now (Some p) rest)
           | Err e => Err e
           | Panic => Panic
           end
       end
   | FRelease :: rest =>
       match pk with
-      | None => cons (XL []) (run_fix_ops v0 cfg st now None rest)
+      | None => cons (XL []) (run_fix_ops v0 ims0 cfg st now None rest)
       | Some p =>
           match phase2_fix v0 cfg (fst st) (snd st) now p with
-          | Ok res => cons (x_reply cfg res) (run_fix_ops v0 cfg (fst (fst (fst res))) now None rest)
+          | Ok res => cons (x_reply cfg res) (run_fix_ops v0 ims0 cfg (fst (fst (fst res))) now None rest)
           | Err e => Err e
           | Panic => Panic
           end
@@ -561,13 +635,13 @@ Fixpoint run_fix_ops (v0 : bool) (cfg : config) (st : vcache * list N) (now : N)
 Definition rules_ok (cfg : config) : bool :=
   forallb (fun pr : bytes * list vrule => forallb (fun '(n, _, _) => rule_name_ok n) (snd pr)) (cf_vary cfg).
 
-Definition run_vary_gen (v0 : bool) (x : xval) : xval :=
+Definition run_vary_gen (v0 ims0 : bool) (x : xval) : xval :=
   match x with
   | XL [c; XL ops] =>
       match d_config c, d_all d_fop ops with
       | Some cfg, Some ops' =>
           if negb (rules_ok cfg) then XL [XN 2] else      (* [add_rule] panics while the host is built *)
-          match run_fix_ops v0 cfg ([], repeat 0 (length (cf_handlers cfg) + 8)) (cf_phase cfg) None ops' with
+          match run_fix_ops v0 ims0 cfg ([], repeat 0 (length (cf_handlers cfg) + 8)) (cf_phase cfg) None ops' with
           | Ok l => XL l
           | Err e => XL [XN 1; XN e]
           | Panic => XL [XN 2]
@@ -577,9 +651,11 @@ Definition run_vary_gen (v0 : bool) (x : xval) : xval :=
   | _ => bad_input
   end.
 
-Definition run_vary := run_vary_gen false.
+Definition run_vary := run_vary_gen false false.
 (** the model of the code before the repair of [handle_vary_missing] (differs only on park/release histories) *)
-Definition run_vary_v0 := run_vary_gen true.
+Definition run_vary_v0 := run_vary_gen true false.
+(** the model of the code before the repair 832d735: the 304 is decided before the variant is looked up *)
+Definition run_vary_ims_v0 := run_vary_gen false true.
 
 Definition spec_step_fix (cfg : config) :=
   spec_step (list N) (compute_c05 (cf_handlers cfg)) (cf_cache cfg) (cf_ims cfg) (prime_fix cfg) (fun _ _ => None)
@@ -606,4 +682,5 @@ Definition run_vary_spec (x : xval) : xval :=
   end.
 
 Definition vary_table : list (bytes * (xval -> xval)) :=
-  [ (B "vary.run", run_vary); (B "vary.run_v0", run_vary_v0); (B "vary.spec", run_vary_spec) ].
+  [ (B "vary.run", run_vary); (B "vary.run_v0", run_vary_v0); (B "vary.run_ims_v0", run_vary_ims_v0);
+    (B "vary.spec", run_vary_spec) ].
